@@ -169,7 +169,7 @@ pub fn make_gz_header(f: &GzFields) -> GzHold {
     head.time = f.mtime as _;
     head.xflags = f.xfl as i32;
     head.os = f.os as i32;
-    head.hcrc = f.hcrc as i32;
+    head.hcrc = if f.hcrc_val != 0 { f.hcrc_val } else { f.hcrc as i32 };
     let mut extra = f.extra.clone();
     if let Some(e) = extra.as_mut() {
         if e.is_empty() {
